@@ -27,6 +27,8 @@ FAMILIES = {
     "inexact decimals": lambda k: k * 0.1,
     "exponent format": lambda k: k * 1e-05,
     "large": lambda k: k * 12345678901234.0,
+    # complex coefficients whose imaginary part is small only RELATIVE to the real part (1000 + 0.005j): "imaginary parts exactly"
+    "relatively small imaginary part": lambda k: k * 1000.0,
 }
 
 
@@ -40,6 +42,8 @@ def coef(c, fam):
         return int(c["re"]) if fam == "small integers" else f(c["re"])
     if c["cls"] == "float":
         return f(c["re"])
+    if fam == "relatively small imaginary part":
+        return complex(c["re"] * 1000.0 if c["re"] else 2000.0, c["im"] * 0.005)
     return complex(f(c["re"]), f(c["im"]))
 
 
